@@ -676,6 +676,12 @@ func (e *SpecEnv) evalCall(n ECall) Val {
 		x := arg(0)
 		switch x.S.K {
 		case KSlice:
+			if !e.inQuant {
+				// every Go slice value is well-formed (0 <= len <= cap): also the ones a contract reads from the heap
+				if w := g.wfFact(x, nil); w != "true" {
+					g.assume("true", w)
+				}
+			}
 			return Val{T: fmt.Sprintf("(sl.%s %s)", n.Fn, x.T), S: g.idxSort(), G: types.Typ[types.Int]}
 		case KStr:
 			return Val{T: fmt.Sprintf("(gstr.len %s)", x.T), S: g.idxSort(), G: types.Typ[types.Int]}
